@@ -29,6 +29,7 @@ EXTENDS Naturals, Sequences, FiniteSets
 CONSTANTS MaxIn,          \* (LzmaCode) largest avail_in an application op offers       (model checking only)
           MaxOps,         \* bound on the number of application level operations         (model checking only)
           MidRunChunks,   \* TRUE: an LZMA2 chunk may fill up while the action is LZMA_RUN
+          TinyInput,      \* TRUE: an input piece may be so short that a BCJ filter passes nothing on (x86: < 5 bytes)
           Bugs            \* names of deliberately wrong variants (non-vacuity runs); {} = the code as it is
 
 VARIABLES inited, supported, seq, savedIn, allowBuf, totalIn, totalOut, obs   \* lzma_internal, see LzmaCode
@@ -68,8 +69,10 @@ Convert(a) == CASE a = "RUN" -> "RUN" [] a = "SYNC_FLUSH" -> "SYNC_FLUSH" [] OTH
 
 NoTok  == [kind |-> "none"]
 NoEv   == [kind |-> "none"]
-NoCall == [active |-> FALSE, a |-> "RUN", ain |-> 0, plan |-> 0, uin |-> 0,
-           outAny |-> FALSE, outFull |-> FALSE, lvl |-> "top"]
+\* plan / exact / pout / pfull: what a recorded call is known to have done (trace validation); model checking uses
+\* plan = ain, exact = FALSE, pout = 1, pfull = "any", i.e. no knowledge.
+NoCall == [active |-> FALSE, a |-> "RUN", ain |-> 0, plan |-> 0, exact |-> FALSE, pout |-> 1, pfull |-> "any",
+           uin |-> 0, outAny |-> FALSE, outFull |-> FALSE, lvl |-> "top"]
 
 \* ---------------------------------------------------------------- filter chain instance
 \* lzma_raw_encoder_init(): simple/delta init, lzma_lz_encoder_init, lzma2_encoder_init / lzma_encoder_init
@@ -111,6 +114,20 @@ InitWith(config) ==
     /\ tok = NoTok
     /\ ev = NoEv
 
+\* the same as an action (trace validation: a new execution starts)
+ResetTo(config) ==
+    /\ cfg' = config
+    /\ inited' = TRUE /\ supported' = SupportedBy(config.enc) /\ seq' = "RUN" /\ savedIn' = 0
+    /\ allowBuf' = FALSE /\ totalIn' = 0 /\ totalOut' = 0 /\ obs' = LC!NoObs
+    /\ app' = [nops |-> 0, op |-> "none", left |-> 0, n |-> 0]
+    /\ call' = NoCall
+    /\ sc' = [sseq |-> "HDR", binit |-> TRUE, chain |-> config.chain0, bseq |-> "CODE", blockIn |-> 0]
+    /\ fl' = FreshFl(config.chain0)
+    /\ mt' = [seq |-> "HDR", thr |-> FALSE, q |-> <<>>, chain |-> config.chain0, ph |-> "read"]
+    /\ blocks' = <<>>
+    /\ tok' = NoTok
+    /\ ev' = NoEv
+
 \* ---------------------------------------------------------------- helpers
 Given  == totalIn + (IF call.active THEN call.uin ELSE 0)     \* bytes accepted so far
 InLeft == call.ain - call.uin                                 \* in_size - *in_pos
@@ -134,23 +151,27 @@ AppAfter(ret, leftNew) ==
     ELSE /\ app' = [app EXCEPT !.op = "none", !.left = 0]
          /\ ev' = [kind |-> "op", a |-> app.op, n |-> app.n, ret |-> ret]
 
-Return(r, uo) ==
-    /\ LC!Call(call.a, call.ain, 1, FALSE, FALSE, FALSE, r, call.uin, uo)
-    /\ call' = NoCall
-    /\ AppAfter(obs'.ret, call.ain - call.uin)
-    /\ UNCHANGED cfg
+\* bytes written by the call: only zero / non-zero is modelled (pout: the recorded amount)
+UoAbs(c) == IF c.outAny THEN (IF c.pout = 0 THEN 1 ELSE c.pout) ELSE 0
 
-UoAbs(c) == IF c.outAny THEN 1 ELSE 0
+\* c2: the call record at the moment of return
+Return(r, c2) ==
+    /\ (c2.exact => c2.uin = c2.plan)
+    /\ (c2.pfull # "any" => c2.outFull = (c2.pfull = "yes"))
+    /\ LC!Call(c2.a, c2.ain, 1, FALSE, FALSE, FALSE, r, c2.uin, UoAbs(c2))
+    /\ call' = NoCall
+    /\ AppAfter(obs'.ret, c2.ain - c2.uin)
+    /\ UNCHANGED cfg
 
 \* inner step that does not return: everything of lzma_code / the application is unchanged
 Silent == /\ UNCHANGED <<lcvars, cfg, app>> /\ ev' = NoEv
 
 \* a step that returns r and changes nothing else in the coders
-RetOnly(r) == /\ Return(r, UoAbs(call)) /\ UNCHANGED <<sc, fl, mt, blocks>> /\ tok' = NoTok
+RetOnly(r) == /\ Return(r, call) /\ UNCHANGED <<sc, fl, mt, blocks>> /\ tok' = NoTok
 
 \* An output element could not be copied completely: *out_pos == out_size, LZMA_OK, same sequence.
 PartialOut == /\ cfg.grant # "big" /\ ~call.outFull
-              /\ Return("OK", 1) /\ UNCHANGED <<sc, fl, mt, blocks>> /\ tok' = NoTok
+              /\ Return("OK", OutDone(TRUE)) /\ UNCHANGED <<sc, fl, mt, blocks>> /\ tok' = NoTok
 
 \* ---------------------------------------------------------------- lz_encode() and below
 \* Where does the return value of lz_encode() go?  raw: lzma_code.  block / stream: block_encode() SEQ_CODE.
@@ -160,7 +181,7 @@ InnerAction == IF cfg.enc = "stream" THEN Convert(call.a) ELSE call.a
 \* block_encode() returns r to its caller (stream_encode SEQ_BLOCK_ENCODE, or lzma_code)
 BlockRet(r, f2, c2, tk) ==
     IF cfg.enc = "block" \/ r # "STREAM_END" \/ call.a = "SYNC_FLUSH"
-    THEN /\ Return(r, UoAbs(c2)) /\ fl' = f2 /\ tok' = tk /\ UNCHANGED <<mt, blocks>>
+    THEN /\ Return(r, c2) /\ fl' = f2 /\ tok' = tk /\ UNCHANGED <<mt, blocks>>
          /\ sc' = sc
     ELSE \* stream_encode(): lzma_index_append(); sequence = SEQ_BLOCK_INIT; break
          /\ Silent /\ fl' = f2 /\ tok' = tk /\ UNCHANGED mt
@@ -171,7 +192,7 @@ BlockRet(r, f2, c2, tk) ==
 \* variant of BlockRet for the steps of block_encode() itself (they also change sc)
 BlockRetSc(r, s2, c2, tk) ==
     IF cfg.enc = "block" \/ r # "STREAM_END" \/ call.a = "SYNC_FLUSH"
-    THEN /\ Return(r, UoAbs(c2)) /\ sc' = s2 /\ tok' = tk /\ UNCHANGED <<fl, mt, blocks>>
+    THEN /\ Return(r, c2) /\ sc' = s2 /\ tok' = tk /\ UNCHANGED <<fl, mt, blocks>>
     ELSE /\ Silent /\ tok' = tk /\ UNCHANGED <<fl, mt>>
          /\ blocks' = Append(blocks, [n |-> s2.blockIn, chain |-> s2.chain])
          /\ sc' = [s2 EXCEPT !.sseq = "BINIT"]
@@ -180,7 +201,7 @@ BlockRetSc(r, s2, c2, tk) ==
 \* lz_encode() returns r (f2: filter chain state, c2: call record at that moment)
 LzRet(r, f2, c2, tk) ==
     CASE cfg.enc = "raw" ->
-            /\ Return(r, UoAbs(c2)) /\ fl' = f2 /\ tok' = tk /\ UNCHANGED <<sc, mt, blocks>>
+            /\ Return(r, c2) /\ fl' = f2 /\ tok' = tk /\ UNCHANGED <<sc, mt, blocks>>
       [] OTHER ->
             \* block_encode() SEQ_CODE after coder->next.code()
             IF r # "STREAM_END"
@@ -207,7 +228,7 @@ FillResults(la) ==
                               ELSE IF ~some THEN {[held |-> FALSE, pass |-> FALSE, end |-> FALSE, fin |-> bugfin]}
                               \* Bugs: the flush "completes" with unfiltered bytes still in coder->buffer[]
                               ELSE {r \in [held : BOOLEAN, pass : BOOLEAN, end : {FALSE}, fin : {bugfin}]
-                                        : r.held \/ r.pass}
+                                        : (r.held \/ r.pass) /\ (k > 0 /\ ~TinyInput => r.pass)}
                      ELSE \* no filter (lzma_bufcpy) or delta_encode(): everything passes
                           {[held |-> FALSE, pass |-> (k > 0), end |-> FALSE, fin |-> (la # "RUN" /\ all)]}
         IN  UNION { LET win2 == fl.win \/ i.pass
@@ -416,8 +437,9 @@ StreamStep ==
                 /\ sc' = [sc EXCEPT !.sseq = "FOOTER"] /\ call' = OutDone(f)
       [] sc.sseq = "FOOTER" ->
            \/ PartialOut
-           \/ /\ Return("STREAM_END", 1) /\ UNCHANGED <<sc, fl, mt, blocks>>
-              /\ tok' = [kind |-> "stream_footer"]
+           \/ \E f \in FullAfter :
+                /\ Return("STREAM_END", OutDone(f)) /\ UNCHANGED <<sc, fl, mt, blocks>>
+                /\ tok' = [kind |-> "stream_footer"]
 
 \* ---------------------------------------------------------------- stream_encode_mt() (coarse)
 QMax == 4       \* output queue buffers (2 x threads, two worker threads)
@@ -433,9 +455,10 @@ MtStep ==
            \* lzma_outq_read(): nothing / part of the head buffer / the rest of a finished head buffer
            \/ /\ Silent /\ tok' = NoTok /\ UNCHANGED <<sc, fl, blocks, call>>
               /\ mt' = [mt EXCEPT !.ph = "in"]
-           \/ /\ mt.q # <<>> /\ ~call.outFull /\ cfg.grant # "big"
-              /\ Silent /\ tok' = NoTok /\ UNCHANGED <<sc, fl, blocks>>
-              /\ mt' = [mt EXCEPT !.ph = "in"] /\ call' = OutDone(TRUE)
+           \/ /\ mt.q # <<>> /\ ~call.outFull
+              /\ \E f \in FullAfter :
+                   /\ Silent /\ tok' = NoTok /\ UNCHANGED <<sc, fl, blocks>>
+                   /\ mt' = [mt EXCEPT !.ph = "in"] /\ call' = OutDone(f)
            \/ /\ mt.q # <<>> /\ mt.q[1].closed /\ ~call.outFull
               /\ \E f \in FullAfter :
                    /\ Silent /\ UNCHANGED <<sc, fl>>
@@ -485,8 +508,9 @@ MtStep ==
       [] mt.seq = "FOOTER" ->
            IF call.outFull THEN RetOnly("OK")
            ELSE \/ PartialOut
-                \/ /\ Return("STREAM_END", 1) /\ UNCHANGED <<sc, fl, mt, blocks>>
-                   /\ tok' = [kind |-> "stream_footer"]
+                \/ \E f \in FullAfter :
+                     /\ Return("STREAM_END", OutDone(f)) /\ UNCHANGED <<sc, fl, mt, blocks>>
+                     /\ tok' = [kind |-> "stream_footer"]
 
 \* ---------------------------------------------------------------- one inner step
 InnerStep ==
@@ -499,13 +523,13 @@ InnerStep ==
 \* ---------------------------------------------------------------- the application calls lzma_code()
 \* a, n: a new operation (app.op = "none") or the continuation of the current one (same action, rest of the input).
 \* plan: how much of the input this call will consume at most (model checking: all of it).
-BeginCall(a, n, plan, full0) ==
+BeginCall(a, n, plan, exact, pout, pfull, full0) ==
     /\ ~call.active
     /\ IF app.op = "none" THEN app' = [nops |-> app.nops + 1, op |-> a, left |-> n, n |-> n] /\ TRUE
        ELSE a = app.op /\ n = app.left /\ app' = app
     /\ LC!ReachesInner(a, n, 1, FALSE, FALSE, FALSE)
-    /\ call' = [active |-> TRUE, a |-> a, ain |-> n, plan |-> plan, uin |-> 0,
-                outAny |-> FALSE, outFull |-> full0, lvl |-> "top"]
+    /\ call' = [active |-> TRUE, a |-> a, ain |-> n, plan |-> plan, exact |-> exact, pout |-> pout, pfull |-> pfull,
+                uin |-> 0, outAny |-> FALSE, outFull |-> full0, lvl |-> "top"]
     \* every call enters lz_encode() / stream_encode_mt()'s loop at its head
     /\ fl' = [fl EXCEPT !.lzpc = "top"] /\ mt' = [mt EXCEPT !.ph = "read"]
     /\ UNCHANGED <<lcvars, cfg, sc, blocks>> /\ tok' = NoTok /\ ev' = NoEv
@@ -574,9 +598,9 @@ Targets == {t \in ChainsAll : t.lz = cfg.chain0.lz}
 
 Next ==
     \/ /\ app.op = "none" /\ app.nops < MaxOps
-       /\ \E a \in AppActions, n \in 0..MaxIn : BeginCall(a, n, n, FALSE) \/ RejectedCall(a, n)
+       /\ \E a \in AppActions, n \in 0..MaxIn : BeginCall(a, n, n, FALSE, 1, "any", FALSE) \/ RejectedCall(a, n)
     \/ /\ app.op # "none"
-       /\ BeginCall(app.op, app.left, app.left, FALSE) \/ RejectedCall(app.op, app.left)
+       /\ BeginCall(app.op, app.left, app.left, FALSE, 1, "any", FALSE) \/ RejectedCall(app.op, app.left)
     \/ InnerStep
     \/ /\ app.nops < MaxOps /\ \E t \in Targets : Update(t)
 
